@@ -345,6 +345,19 @@ func genSpecs(gs genSlot, thorough bool) []genSpec {
 			add("two messages, disjoint halves", [][]genFieldSet{all(0, even), all(1, odd)}, true)
 			add("three messages: all, none, half", [][]genFieldSet{all(0, nil), {}, all(1, even)}, true)
 			add("three messages: none, half, other half", [][]genFieldSet{{}, all(2, odd), all(0, even)}, true)
+			// consecutive messages that differ in exactly one field (either order), for every field
+			base := genFieldSet{usable[0].Slot, 0}
+			for i, e := range usable {
+				if i == 0 {
+					continue
+				}
+				add(fmt.Sprintf("delta +field %d", e.Num), [][]genFieldSet{{base}, {base, {e.Slot, 0}}}, thorough)
+				add(fmt.Sprintf("delta -field %d", e.Num), [][]genFieldSet{{base, {e.Slot, 0}}, {base}, {base, {e.Slot, 1 % 2}}}, thorough)
+			}
+			if len(usable) > 1 {
+				other := genFieldSet{usable[len(usable)-1].Slot, 0}
+				add("delta first field", [][]genFieldSet{{other}, {other, base}}, true)
+			}
 		}
 	}
 	return out
